@@ -3076,7 +3076,7 @@ bool LowerGamma::is_canonical(const RCP<const Basic> &s,
     if (is_a<Integer>(*s)
         and down_cast<const Integer &>(*s).as_integer_class() > 1)
         return false;
-    if (is_a<Integer>(*mul(i2, s)))
+    if (not is_a<Integer>(*s) and is_a<Integer>(*mul(i2, s)))
         return false;
 #ifdef HAVE_SYMENGINE_MPFR
 #if MPFR_VERSION_MAJOR > 3
@@ -3159,7 +3159,7 @@ bool UpperGamma::is_canonical(const RCP<const Basic> &s,
     if (is_a<Integer>(*s)
         and down_cast<const Integer &>(*s).as_integer_class() > 1)
         return false;
-    if (is_a<Integer>(*mul(i2, s)))
+    if (not is_a<Integer>(*s) and is_a<Integer>(*mul(i2, s)))
         return false;
 #ifdef HAVE_SYMENGINE_MPFR
 #if MPFR_VERSION_MAJOR > 3
@@ -3190,7 +3190,7 @@ RCP<const Basic> uppergamma(const RCP<const Basic> &s,
                        mul(pow(x, s_int), exp(mul(minus_one, x))));
         } else {
             // TODO: implement unpolarfy to handle this case
-            return make_rcp<const LowerGamma>(s, x);
+            return make_rcp<const UpperGamma>(s, x);
         }
     } else if (is_a<Integer>(*(mul(i2, s)))) {
         RCP<const Number> s_num = rcp_static_cast<const Number>(s);
